@@ -46,8 +46,8 @@ def oracle(line: str, obs: Obs):
                 n = l.split(" ")[1]
                 d = kv(l)
                 if pstate[n]["conn"] != "-" and d["conn"] == "-":
-                    pstate[n]["last_disc"] = now
-                if d["disc"] == "1" and pstate[n]["last_disc"] is None:
+                    pstate[n]["last_disc"] = now          # the connection was lost at this instant
+                elif d["disc"] == "1" and pstate[n]["last_disc"] is None:
                     pstate[n]["last_disc"] = now
                 pstate[n].update(conn=d["conn"], reason=d["reason"], disc=d["disc"])
         for k, d in conns.items():
@@ -75,7 +75,7 @@ def oracle(line: str, obs: Obs):
         if simple and t[0] in ("adv", "tick") and not stopping:
             for n, p in peers.items():
                 b = before_p[n]
-                due = (p["persistent"] and b["conn"] == "-" and b["disc"] == "1" and b["last_disc"] is not None
+                due = (p["persistent"] and b["conn"] == "-" and b["last_disc"] is not None
                        and now - b["last_disc"] >= p["wait"] and not (b["reason"] == "DPR" and not p["always"]) and p["addr"])
                 got = dialled.get(n, 0)
                 if due and got != 1:
@@ -131,6 +131,19 @@ def scenarios(rng: random.Random, tier: str):
                                 f"rx {c} " + nodegen.cer("peer1.x", "4", n(), n()),
                             ]))
                         out.append(cfg_line(persistent, always, wait, addr) + " | " + " | ".join(evs))
+    # DPR from an always-reconnect peer, connection ends, wait elapses -> dialled again (first and repeated losses)
+    for wait in (2, 5):
+        base = cfg_line(1, 1, wait) + " | start ok,ok | rx 0 " + nodegen.cea(2001, "peer1.x", n(), n())
+        out.append(base + " | rx 0 " + nodegen.dpr(n(), n()) + f" | eof 0 | adv {wait - 1} | adv 1 | adv {wait}")
+        out.append(base + f" | eof 0 | adv {wait} | conn 2 ok | rx 2 " + nodegen.cea(2001, "peer1.x", n(), n()) +
+                   " | rx 2 " + nodegen.dpr(n(), n()) + f" | eof 2 | adv 1 | adv {wait - 1} | adv {wait}")
+        out.append(cfg_line(1, 0, wait) + " | start ok,ok | rx 0 " + nodegen.cea(2001, "peer1.x", n(), n()) + " | rx 0 " +
+                   nodegen.dpr(n(), n()) + f" | eof 0 | adv {wait} | adv {wait}")
+    # DPR while a DWR of ours is unanswered (READY_WAITING_DWA), then a late DWA
+    idle_cfg = cfg_line(1, 0, 5).replace("idle=30", "idle=3")
+    out.append(idle_cfg + " | start ok,ok | rx 0 " + nodegen.cea(2001, "peer1.x", n(), n()) + " | adv 4 | rx 0 " +
+               nodegen.dpr(n(), n()) + " | req 0 " + nodegen.ccr(0, 0, "node.local") + " 1 | rx 0 " + nodegen.dwa(n(), n()) +
+               " | req 0 " + nodegen.ccr(0, 0, "node.local") + " 1")
     # DPR then request must not be routed over that connection
     out.append(cfg_line(1, 0, 5) + " | start ok,ok | rx 0 " + nodegen.cea(2001, "peer1.x", n(), n()) + " | rx 0 " + nodegen.dpr(n(), n()) +
                " | req 0 " + nodegen.ccr(0, 0, "node.local") + " 1 | eof 0 | adv 5 | adv 5")
